@@ -36,6 +36,7 @@ func init() {
 		Assumptions: []string{
 			"the template model is refint's quasiquote (everything literal, unquote inserts a value, unquote-splicing splices a list, written quote marks are re-applied)",
 			"gensym names in the model differ from the real ones; programs are generated so that a gensym never leaks into a compared value",
+			"overlapping expansions: the model's macroexpand / macroexpand-1 (refint.InstallMacroexpand) follow the docstrings for macros defined in lisp (head resolved where macroexpand is called, one fresh frame per expansion, the expansion returned as quoted data) and decline macros the model implements directly",
 		},
 		Cases:       func(tier string) int { return pick(tier, 16000, 500000) },
 		Run:         c07Run,
